@@ -50,12 +50,6 @@ keeps the compiler from fusing the projections back into the closure) -/
 @[noinline] def vecArr (n : Nat) (f : Nat → Float) : Array Float := (Array.range n).map f
 @[noinline] def matOfArr (n : Nat) (a : Array Float) : Mat Float := fun i j => if i < n ∧ j < n then a[n * i + j]! else 0
 @[noinline] def vecOfArr (a : Array Float) : Nat → Float := fun i => a[i]!
-def mat3 (f : Mat Float) : Mat Float := matOfArr 3 (matArr 3 f)
-def mat4 (f : Mat Float) : Mat Float := matOfArr 4 (matArr 4 f)
-def vec3 (f : Nat → Float) : Nat → Float := vecOfArr (vecArr 3 f)
-def vec4 (f : Nat → Float) : Nat → Float := vecOfArr (vecArr 4 f)
-def matN (n : Nat) (f : Mat Float) : Mat Float := if n == 3 then mat3 f else mat4 f
-def vecN (n : Nat) (f : Nat → Float) : Nat → Float := if n == 3 then vec3 f else vec4 f
 def matL (n : Nat) (f : Mat Float) : List Float := if n == 3 then m33L (M33.ofFn f) else m44L (M44.ofFn f)
 def vecL (n : Nat) (f : Nat → Float) : List Float := (List.range n).map f
 def ident : Mat Float := fun i j => if i = j then 1 else 0
@@ -73,53 +67,68 @@ def maxOffDiagSymm (n : Nat) (A : Mat Float) : Float :=
 def det3 (m : Mat Float) : Float :=
   m 0 0 * (m 1 1 * m 2 2 - m 1 2 * m 2 1) + m 0 1 * (m 1 2 * m 2 0 - m 1 0 * m 2 2) + m 0 2 * (m 1 0 * m 2 1 - m 1 1 * m 2 0)
 
+/-- iteration state as DATA (arrays): a function-valued state would be re-evaluated at every access -/
+structure SVDArr where
+  A : Array Float
+  U : Array Float
+  V : Array Float
+
 /-- one sweep of twoSidedJacobiSVD; returns (changed, state) -/
-def svdSweep (n : Nat) (tol : Float) (st : SVDState Float) : Bool × SVDState Float :=
-  (pairs n).foldl (fun (acc : Bool × SVDState Float) jk =>
-    let r := twoSidedJacobiRotation tol Float.sqrt jk.1 jk.2 acc.2
-    (r.1 || acc.1, ⟨matN n r.2.A, matN n r.2.U, matN n r.2.V⟩)) (false, st)
+def svdSweep (n : Nat) (tol : Float) (st : SVDArr) : Bool × SVDArr :=
+  (pairs n).foldl (fun (acc : Bool × SVDArr) jk =>
+    let r := twoSidedJacobiRotation tol Float.sqrt jk.1 jk.2
+      ⟨matOfArr n acc.2.A, matOfArr n acc.2.U, matOfArr n acc.2.V⟩
+    (r.1 || acc.1, ⟨matArr n r.2.A, matArr n r.2.U, matArr n r.2.V⟩)) (false, st)
 
 /-- `do { sweep; if (!changed) break; } while (maxOffDiag (A) > absTol && numIter < maxIter)` -/
-def svdLoop (n : Nat) (tol absTol : Float) : Nat → Nat → SVDState Float → SVDState Float
+def svdLoop (n : Nat) (tol absTol : Float) : Nat → Nat → SVDArr → SVDArr
   | 0, _, st => st
   | fuel + 1, numIter, st =>
     let numIter := numIter + 1
     let r := svdSweep n tol st
     if !r.1 then r.2
-    else if absTol < maxOffDiag n r.2.A && numIter < 20 then svdLoop n tol absTol fuel numIter r.2 else r.2
+    else if absTol < maxOffDiag n (matOfArr n r.2.A) && numIter < 20 then svdLoop n tol absTol fuel numIter r.2 else r.2
 
-/-- determinant as `Matrix44::determinant` is only needed for its SIGN on the (near-)orthogonal `U`, `V`;
-the harness passes the two signs it observed (see c12_corr.cpp) so that no second determinant routine is modelled -/
-def svdFull (n : Nat) (force : Bool) (sgnU sgnV : Float) (tol : Float) (A : Mat Float) : USV Float :=
+/-- whole `twoSidedJacobiSVD`.  The determinants of `forcePositiveDeterminant` are inputs: the harness passes the values
+`U.determinant ()`, `V.determinant ()` that the real code computes on the result of the run without the flag (the same
+`U`, `V` at that point of the code), so that no second determinant routine has to be modelled here. -/
+def svdFull (n : Nat) (force : Bool) (detU detV : Float) (tol : Float) (A : Mat Float) : USV Float :=
   let absTol := tol * maxOffDiag n A
-  let st0 : SVDState Float := ⟨A, ident, ident⟩
+  let st0 : SVDArr := ⟨matArr n A, matArr n ident, matArr n ident⟩
   let st := if absTol != 0 then svdLoop n tol absTol 21 0 st0 else st0
-  let t : USV Float := ⟨st.U, fun i => st.A i i, st.V⟩
+  let t : USV Float := ⟨matOfArr n st.U, vecOfArr (vecArr n fun i => matOfArr n st.A i i), matOfArr n st.V⟩
   let t := if n == 3 then post3 t else post4 t
-  let t : USV Float := ⟨matN n t.U, vecN n t.S, matN n t.V⟩
-  if force then forcePos (n - 1) sgnU sgnV t else t
+  let t : USV Float := ⟨matOfArr n (matArr n t.U), vecOfArr (vecArr n t.S), matOfArr n (matArr n t.V)⟩
+  if force then forcePos (n - 1) detU detV t else t
 
-def eigSweep (n : Nat) (tol : Float) (st : EigState Float) : Bool × EigState Float :=
-  (pairs n).foldl (fun (acc : Bool × EigState Float) jk =>
-    let r := jacobiRotation tol Float.sqrt n jk.1 jk.2 acc.2
-    (r.1 || acc.1, ⟨matN n r.2.A, matN n r.2.V, vecN n r.2.Z⟩)) (false, st)
+structure EigArr where
+  A : Array Float
+  S : Array Float
+  V : Array Float
+
+def eigSweep (n : Nat) (tol : Float) (st : EigArr) : Bool × Array Float × Array Float × Array Float :=
+  -- (changed, A, V, Z)
+  (pairs n).foldl (fun (acc : Bool × Array Float × Array Float × Array Float) jk =>
+    let r := jacobiRotation tol Float.sqrt n jk.1 jk.2 ⟨matOfArr n acc.2.1, matOfArr n acc.2.2.1, vecOfArr acc.2.2.2⟩
+    (r.1 || acc.1, matArr n r.2.A, matArr n r.2.V, vecArr n r.2.Z)) (false, st.A, st.V, vecArr n fun _ => 0)
 
 /-- jacobiEigenSolver: state (A, S, V) -/
-def eigLoop (n : Nat) (tol absTol : Float) : Nat → Nat → Mat Float → (Nat → Float) → Mat Float → Mat Float × (Nat → Float) × Mat Float
-  | 0, _, A, S, V => (A, S, V)
-  | fuel + 1, numIter, A, S, V =>
+def eigLoop (n : Nat) (tol absTol : Float) : Nat → Nat → EigArr → EigArr
+  | 0, _, st => st
+  | fuel + 1, numIter, st =>
     let numIter := numIter + 1
-    let r := eigSweep n tol ⟨A, V, fun _ => 0⟩
+    let r := eigSweep n tol st
     -- for i: A[i][i] = S[i] += Z[i]
-    let S' := vecN n fun i => S i + r.2.Z i
-    let A' := matN n fun i j => if i = j ∧ i < n then S' i else r.2.A i j
-    if !r.1 then (A', S', r.2.V)
-    else if absTol < maxOffDiagSymm n A' && numIter < 20 then eigLoop n tol absTol fuel numIter A' S' r.2.V else (A', S', r.2.V)
+    let S' := vecArr n fun i => st.S[i]! + r.2.2.2[i]!
+    let A' := matArr n fun i j => if i = j ∧ i < n then S'[i]! else matOfArr n r.2.1 i j
+    let st' : EigArr := ⟨A', S', r.2.2.1⟩
+    if !r.1 then st'
+    else if absTol < maxOffDiagSymm n (matOfArr n A') && numIter < 20 then eigLoop n tol absTol fuel numIter st' else st'
 
-def eigFull (n : Nat) (tol : Float) (A : Mat Float) : Mat Float × (Nat → Float) × Mat Float :=
-  let S : Nat → Float := vecN n fun i => A i i
+def eigFull (n : Nat) (tol : Float) (A : Mat Float) : EigArr :=
+  let st0 : EigArr := ⟨matArr n A, vecArr n fun i => A i i, matArr n ident⟩
   let absTol := tol * maxOffDiagSymm n A
-  if absTol != 0 then eigLoop n tol absTol 21 0 A S ident else (A, S, ident)
+  if absTol != 0 then eigLoop n tol absTol 21 0 st0 else st0
 
 def ear33Line (a : Array Float) : String :=
   match ear33 tmaxF (lengthV2 tminF Float.sqrt) (m33Of a 0) with
@@ -169,11 +178,11 @@ def handle (ws : List String) : String :=
   | "eig3" :: tol :: rest =>
     let a := (rest.map pf).toArray
     let r := eigFull 3 (pf tol) (M33.toFn (m33Of a 0))
-    strs (matL 3 r.1 ++ vecL 3 r.2.1 ++ matL 3 r.2.2)
+    strs (r.A.toList ++ r.S.toList ++ r.V.toList)
   | "eig4" :: tol :: rest =>
     let a := (rest.map pf).toArray
     let r := eigFull 4 (pf tol) (M44.toFn (m44Of a 0))
-    strs (matL 4 r.1 ++ vecL 4 r.2.1 ++ matL 4 r.2.2)
+    strs (r.A.toList ++ r.S.toList ++ r.V.toList)
   | "idx" :: n :: rest =>
     let a := (rest.map pf).toArray
     let S : Nat → Float := fun i => a[i]!
